@@ -11,7 +11,7 @@ func init() {
 		},
 		Rule:      "a case = (generated design whose results are result types with 1-3 views, nested result types with per-attribute view overrides, collections, recursion; method; result value; view chosen by the stub among the defined ones and \"\", or fixed in the design; kind): 'view' (normal call), 'undefined-view' (the real response re-labelled with an undefined view name and handed to the generated client), 'missing-required' (the real response without a required attribute of the rendered view). Non-trivial = non-default view, or a nested result type rendered with another view than its parent's, or a collection, or a relabelled/edited response. Distinct = SHA-256 of the case.",
 		LevelText: "Generated-input search: a reference projection (view fields, per-attribute view override, attribute view meta, default) is applied to the value the stub returns; the JSON keys on the wire at every depth must be exactly the projected attributes, the goa-view header must name the chosen view, the client result must equal the projection with attributes outside the view unset, an undefined view label must be refused, and a response lacking a required attribute of the view must be refused.",
-		LevelNote: "Trusts the Go tool chain, net/http, rapid, and the verifier's projection (internal/oracle.Project) and harness. Unset is observed as nil or, for non-pointer Go fields, as the zero value.",
+		LevelNote: "Trusts the Go tool chain, net/http, rapid, and the verifier's projection (internal/oracle.Project) and harness. Unset is observed as nil or, for non-pointer Go fields, as the zero value. A failure of the search is attributed to an open finding only when the design matches the finding's model predicate and the observation shows its mark (see known_findings.d/c08.json); everything else is reported.",
 		Technique: "property-based testing (rapid): reference view projection against generated server/client, plus metamorphic edits of real responses (relabelled view, removed required attribute)",
 		Assumptions: []string{
 			"attributes outside the view that are non-pointer Go fields (required primitives, primitives with defaults) show as their zero value at the client",
